@@ -627,15 +627,45 @@ impl PersistBackend for FilePersist {
     }
 
     fn delete_shard(&self, shard: &str) -> StorageResult<()> {
-        // Step 1: Remove from in-memory shard map (fast, under write lock)
+        // A crash at any point must leave either the whole shard or nothing of it.
+        // The single atomic step is the removal of the metadata file (Step 4): before it
+        // the shard is complete, after it nothing references its batch files any more.
+        // (Deleting batch files first - the previous order - left a shard with only some
+        // of its batches after a crash: a partially dropped relation.)
+
+        // Step 1: move everything the shard has into batch files, so that it owns no WAL
+        // entries and the metadata alone describes it.
+        if self.shards.read().contains_key(shard) {
+            self.flush(shard)?;
+        }
+
+        // Step 2: Remove from in-memory shard map (fast, under write lock)
         let removed_state = {
             let mut shards = self.shards.write();
             shards.remove(shard)
         }; // write lock released - other shards unblocked
 
-        // Step 2: Delete batch files FIRST (crash-safe ordering)
-        // If we crash here, metadata still references them but they're gone.
-        // On next startup, load_shards will see missing files and handle gracefully.
+        // Step 3: Selective WAL filter - remove only this shard's entries (none are left
+        // after the flush unless a writer raced with the drop).
+        // Other shards' WAL data is PRESERVED (no need to flush them)
+        {
+            let mut wal = self.wal.lock();
+            wal.remove_shard_entries(shard)?;
+        }
+
+        // Step 4: Delete the metadata file: the commit point of the drop.
+        let meta_path = self
+            .config
+            .path
+            .join("shards")
+            .join(format!("{}.json", sanitize_name(shard)));
+        if meta_path.exists() {
+            let _ = fs::remove_file(&meta_path);
+            sync_directory(&self.config.path.join("shards"));
+        }
+
+        // Step 5: Delete the batch files LAST. If we crash here they are unreferenced and
+        // cleanup_orphaned_batches() removes them at the next startup.
         if let Some(ref state) = removed_state {
             let mut deleted_any = false;
             for batch_ref in &state.meta.batches {
@@ -647,25 +677,6 @@ impl PersistBackend for FilePersist {
             if deleted_any {
                 sync_directory(&self.config.path.join("batches"));
             }
-        }
-
-        // Step 3: Selective WAL filter - remove only this shard's entries
-        // Other shards' WAL data is PRESERVED (no need to flush them)
-        {
-            let mut wal = self.wal.lock();
-            wal.remove_shard_entries(shard)?;
-        }
-
-        // Step 4: Delete metadata file LAST (crash-safe ordering)
-        // After this, the shard is fully removed from disk.
-        let meta_path = self
-            .config
-            .path
-            .join("shards")
-            .join(format!("{}.json", sanitize_name(shard)));
-        if meta_path.exists() {
-            let _ = fs::remove_file(&meta_path);
-            sync_directory(&self.config.path.join("shards"));
         }
 
         Ok(())
